@@ -21,7 +21,8 @@ import RuxModel.Model.Dispatch
     nilpanic                                     (implementation only) panic(nil) with a hook; the model answers `unsupported`
   handler  H  = PH | - | act,act,…      act = em:<t> nx pn:<pv> st:<k>:<v> ae:<e> sp:<k>:<v> ab ss:<code> wr:<b>
                                               wh:<code> rr:<id> rq:<id> gt:<k> dp kc  (<k> <v> <e> <b> hex)
-              `kc` (the handler keeps a `Context.Copy()`) is nothing the request can observe: the token is dropped
+              `kc` (the handler keeps a `Context.Copy()`), `qv` (reads and edits its copy of the URL query), `cx` (a
+              request context cancelled when the handler returns) are nothing the request can observe: the tokens are dropped
               here, the harness checks the kept copy with an oracle
               `sh:<id>` (route handlers only: `c.SetHandlers(route <id>.Handlers())`) replaces the chain the request
               is running; that is outside the model: the token is dropped, and a request to a route with such a handler
@@ -189,7 +190,7 @@ def hasNR (s : String) : Bool := (s.splitOn ",").any isNR
 def hasHJ (s : String) : Bool := (s.splitOn ",").any (· = "hj")
 
 def actToks (s : String) : List String :=
-  ((s.splitOn ",").filter (fun t => t ≠ "kc" && !isSH t && !isNR t && t ≠ "hj")).flatMap expandAbort
+  ((s.splitOn ",").filter (fun t => t ≠ "kc" && t ≠ "qv" && t ≠ "cx" && !isSH t && !isNR t && t ≠ "hj")).flatMap expandAbort
 
 def parseSHandler (s : String) : Option (List SAct) :=
   if s = "-" then some [] else (actToks s).mapM parseSAct
